@@ -251,6 +251,9 @@ class TrioEnv:
     async def sleep(self, dt: float) -> None:
         await trio.sleep(dt)
 
+    async def cancel_self(self) -> bool:
+        return False  # a trio task cannot cancel itself from the inside: treated as an early return
+
     # ---- transport callbacks ------------------------------------------------------------
     def now(self) -> float:
         return self.clock.current_time() - self.t0
